@@ -40,6 +40,9 @@ func c01Cases(seed int64) []c01Case {
 	var cs []c01Case
 	epochs := []uint64{1, 7, 700, 0, 123}
 	nRandom := ev.Pick(40, 300)
+	if os.Getenv("VERIF_RACE") != "" {
+		nRandom = ev.Pick(5, 40) // the race-detector run: index generation and lookups on a few CARs
+	}
 	for i := 0; i < nRandom; i++ {
 		o := cargen.Opts{
 			Epoch: epochs[rng.Intn(len(epochs))], Seed: seed*7919 + int64(i),
@@ -63,6 +66,9 @@ func c01Cases(seed int64) []c01Case {
 	// bucket boundaries (10 000 entries per bucket): blocks and transactions below/at/above
 	mk := func(name string, nslots, exactTx int) c01Case {
 		return c01Case{Name: name, RemoteSample: 53, Opts: cargen.Opts{Epoch: 9, Seed: seed + int64(nslots*3+exactTx), NSlots: nslots, MaxEntries: 1, MaxTx: 1, ExactTx: exactTx, RewardsOneIn: 50}}
+	}
+	if os.Getenv("VERIF_RACE") != "" {
+		return cs
 	}
 	cs = append(cs, mk("blocks-10001", 10001, 500))
 	cs = append(cs, mk("tx-10000", 400, 10000))
